@@ -158,6 +158,11 @@ def runner(rep, tier, seed, replay):
     rs = run_tlc("Alias", "Alias_sim", simulate=max(5, n // 80), depth=25, seed=seed, workers=1, coverage=False,
                  on_replay=lambda v: hists.append(v) if len(hists) < n else None, keep_replays=False, timeout=1800)
     rep.add_tlc(rs)
+    # every value under three kinds of name: define, `alias NAME`, full listing, use (the random walks show a defined name rarely)
+    for v in sorted(DEF):
+        for n in ("n1", "a.b", "7z"):
+            hists.append([{"op": "define", "n": n, "v": v}, {"op": "show", "n": n, "v": v}, {"op": "list", "table": {n: v}},
+                          {"op": "use", "n": n, "v": v, "pos": "head"}])
     log("[C17] %d histories" % len(hists))
     jobs = [{"entry": "script", "text": render(h), "timeout": 20} for h in hists]
     results = run_cases(jobs)
@@ -173,7 +178,12 @@ def runner(rep, tier, seed, replay):
             rep.sample({"script": j["text"][:600]})
     # round trip: feed each listing to a fresh shell and probe every name
     random.Random(seed).shuffle(second)
-    second = second[:(300 if tier == "quick" else 3000)]
+    # listings that hold a value with quote characters go first (both the full listing and `alias NAME`), the rest is sampled
+    quoted = lambda e: any(v in ("v2", "v3", "v8") for v in e[1][3].values())
+    second.sort(key=lambda e: (0 if (e[1][1]["op"] == "show" and quoted(e)) else 1 if quoted(e) else 2))
+    nq = sum(1 for e in second if e[1][1]["op"] == "show" and quoted(e))
+    second = second[:max(300 if tier == "quick" else 3000, min(nq, 150) + 200)]
+    log("[C17] round trips: %d listings (%d of them `alias NAME` of a value with quotes)" % (len(second), min(nq, len(second))))
     jobs2 = []
     for h, (i, o, content, defined) in second:
         probes = "".join("%s probe-%s\n" % (n, n) for n in NAMES)
